@@ -52,12 +52,7 @@ def spec_items(tier):
                                    nonpositive_when_undiscounted=False)
         yield from build.chain_mdps(3, [F(1)], [F(-1), F(0)])
     else:
-        yield from build.enum_mdps(2, AS, 1, [F(-2), F(-1), F(0), F(1)], build.subsets(2), [build.INIT_MENU[2][2]], G,
-                                   nonpositive_when_undiscounted=False)
-        yield from build.enum_mdps(3, [('a',), ('a', 'b')], 1, [F(-1), F(1)], [(), (2,)], [build.INIT_MENU[3][0]],
-                                   [F(9, 10), F(1)], nonpositive_when_undiscounted=False)
-        yield from build.chain_mdps(3, G, [F(-1), F(0), F(1)])
-        yield from build.chain_mdps(4, [F(1)], [F(-1), F(0)])
+        yield from build.thorough_mdps(nonpositive_when_undiscounted=False)
 
 
 def items(tier, seed):
